@@ -71,10 +71,28 @@ def mssm_apply(p, defect, draw_val, slha_type=False):
             i = 0     # in the SLHA scheme ml2(2,2), me2(2,2) are outputs of the conversion (fixed by pole masses), not inputs
         q[k][i] = -draw_val(1e2, 1e6)
     elif defect == "tachyon":
-        # light staus and a large left-right mixing m_tau mu tan(beta)
-        q["TB"] = max(q["TB"], 40.0)
-        q["Mu"] = math.copysign(max(abs(q["Mu"]), 3000.0), q["Mu"])
-        q["ml2"][2] = q["me2"][2] = 100.0 ** 2
+        which = int(draw_val(0, 3.999)) if not slha_type else 0
+        if which == 0:
+            # light staus and a large left-right mixing m_tau mu tan(beta)
+            q["TB"] = max(q["TB"], 40.0)
+            q["Mu"] = math.copysign(max(abs(q["Mu"]), 3000.0), q["Mu"])
+            q["ml2"][2] = q["me2"][2] = 100.0 ** 2
+        elif which == 1:
+            # muon sneutrino alone: 0 <= ml2(2,2) < MZ^2 |cos 2beta| / 2 (the D-term makes it tachyonic; the charged
+            # partner gets +(MW^2 - MZ^2/2)|cos 2beta| and stays healthy for a heavy right-handed smuon)
+            q["TB"] = max(q["TB"], 5.0)
+            q["ml2"][1] = draw_val(5.0, 55.0) ** 2
+            q["Ae"][1] = 0.0
+        elif which == 2:
+            # stops: light soft masses and a large A_t
+            q["mq2"][2] = q["mu2"][2] = 150.0 ** 2
+            q["Au"][2] = math.copysign(4000.0, q["Au"][2] or 1.0)
+        else:
+            # sbottoms: light soft masses and a large mu tan(beta)
+            q["TB"] = max(q["TB"], 45.0)
+            q["Mu"] = math.copysign(max(abs(q["Mu"]), 4000.0), q["Mu"])
+            q["mq2"][2] = q["md2"][2] = 120.0 ** 2
+            q["mu2"][2] = max(q["mu2"][2], 1000.0 ** 2)
     return q, extra
 
 
